@@ -23,7 +23,7 @@ type c11 struct{ base }
 
 func init() {
 	core.Register(c11{base{id: "C11", level: "exploration", quickB: 16, thoroughB: 32,
-		rule: "server TLS configurations {none, empty tls.Config, self-signed certificate (TLS 1.2 only / TLS 1.3)} x client behaviours {plain startup, SSLRequest + handshake + generated session, SSLRequest with plaintext startup + canary Query stuffed into the same segment or a later segment before the handshake, repeated SSLRequest inside TLS, malformed / oversized / sub-minimum startup packets sent inside TLS, GSSENCRequest, raw plaintext protocol bytes injected under an established TLS session} x sessions from the C15 session generator (typed tables, extended histories, COPY, errors, oversized). Monitors on the raw wire tap: reply to SSLRequest is exactly 'S' (certificates) or 'N' (none); every raw server byte after 'S' parses as TLS records (type 20-23, version 0x0301-0x0304, length <= 2^14+256, exact framing); unique canary strings (query texts, values, tags, error texts) never appear in the raw server stream; the decrypted transcript and callback trace equal the plaintext run of the same session; stuffed/injected canaries never reach a callback. Non-trivial = TLS session with at least one query, or a stuffing/injection case; distinct = (config, behaviour, session shape).",
+		rule:        "server TLS configurations {none, empty tls.Config, self-signed certificate (TLS 1.2 only / TLS 1.3)} x client behaviours {plain startup, SSLRequest + handshake + generated session, SSLRequest with plaintext startup + canary Query stuffed into the same segment or a later segment before the handshake, repeated SSLRequest inside TLS, malformed / oversized / sub-minimum startup packets sent inside TLS, GSSENCRequest (and, if it is declined with N on an open connection, an SSLRequest after it), raw plaintext protocol bytes injected under an established TLS session} x sessions from the C15 session generator (typed tables, extended histories, COPY, errors, oversized). Monitors on the raw wire tap: reply to SSLRequest is exactly 'S' (certificates) or 'N' (none); every raw server byte after 'S' parses as TLS records (type 20-23, version 0x0301-0x0304, length <= 2^14+256, exact framing); unique canary strings (query texts, values, tags, error texts) never appear in the raw server stream; the decrypted transcript and callback trace equal the plaintext run of the same session; stuffed/injected canaries never reach a callback. Non-trivial = TLS session with at least one query, or a stuffing/injection case; distinct = (config, behaviour, session shape).",
 		need:        []string{"tls_sessions", "tls_records_parsed", "canary_searches", "plaintext_equal_sessions", "stuffing_cases", "injection_cases", "no_cert_replies_N"},
 		assumptions: append([]string{"crypto/tls is trusted for the cryptography itself; the check decides which bytes travel inside the session and what the server does with bytes outside it"}, commonAssumptions...)}})
 }
@@ -187,7 +187,7 @@ func (ch c11) Run(c *core.Ctx) {
 			if rng.Intn(3) == 0 {
 				ch.authInsideTLS(c, envTLSAuth, s, rng, maxVer, cs)
 			} else {
-				ch.odd(c, envTLS, s, rng, maxVer, cs)
+				ch.odd(c, envTLS, envNone, s, rng, maxVer, cs)
 			}
 		}
 	}
@@ -459,13 +459,61 @@ func (ch c11) authInsideTLS(c *core.Ctx, env *hs.Env, s c15session, rng *core.Rn
 }
 
 // odd behaviours: repeated SSLRequest inside TLS, GSSENCRequest; only safety is judged.
-func (ch c11) odd(c *core.Ctx, env *hs.Env, s c15session, rng *core.Rng, maxVer uint16, cs map[string]any) {
+func (ch c11) odd(c *core.Ctx, env, envNone *hs.Env, s c15session, rng *core.Rng, maxVer uint16, cs map[string]any) {
 	probe := &hs.Prog{Stmts: []*hs.Stmt{{ID: "probe", Cols: textCols(1), Ops: []hs.Op{{K: "row", Vals: []any{"tls-probe-value-" + s.User}}, {K: "complete", Tag: "SELECT 1"}}}}}
 	sess := &hs.Sess{Default: func(q string) *hs.Prog { return probe }}
 	c.Eval("odd", true)
 	if rng.Bool() {
-		conn := env.Dial(sess)
+		genv, wantSSL := env, "S"
+		if rng.Intn(3) == 0 {
+			genv, wantSSL = envNone, "N"
+		}
+		conn := genv.Dial(sess)
 		conn.Send(pg.GSSENCRequest())
+		if closed, _ := conn.Quiesce(); !closed && string(conn.Out()) == "N" {
+			// GSS encryption declined and the connection kept open: like libpq with gssencmode=prefer the
+			// client goes on with an SSLRequest, for which the rule of the property holds unchanged
+			c.Count("gss_declined_then_sslrequest", 1)
+			conn.Send(pg.SSLRequest())
+			conn.Quiesce()
+			if got := string(conn.Out()[1:]); got != wantSSL {
+				c.Violate("ssl-reply", fmt.Sprintf("SSLRequest after a declined GSSENCRequest not answered with the single byte %s", wantSSL), fmt.Sprintf("%q", trim(got, 20)), cs)
+				return
+			}
+			var stepf func([]byte) ([]byte, bool)
+			if wantSSL == "S" {
+				t := &c11tls{conn: conn, cc: &tr.ClientConn{C: conn, Pos: 2}}
+				cfg := hs.ClientTLS()
+				cfg.MaxVersion = maxVer
+				t.tc = tls.Client(t.cc, cfg)
+				if err := t.tc.Handshake(); err != nil {
+					c.Violate("upgrade", "TLS handshake failed after GSSENCRequest + SSLRequest", err.Error(), cs)
+					return
+				}
+				stepf = t.step
+				defer func() {
+					t.tc.Close()
+					conn.CloseWrite()
+					conn.WaitClosed()
+					if _, err := tlsRecords(conn.Out()[2:]); err != nil {
+						c.Violate("plaintext-after-S", "raw server bytes after S are not TLS records (GSSENCRequest first)", err.Error(), cs)
+					}
+				}()
+			} else {
+				cl := &hs.Client{C: conn}
+				cl.Wait()
+				stepf = cl.Step
+				defer cl.Finish()
+			}
+			if out, _ := stepf(pg.Startup([][2]string{{"user", s.User}})); !strings.HasSuffix(pg.Types(mustMsgs(out)), "Z") {
+				c.Violate("upgrade", "startup after GSSENCRequest + SSLRequest not served", replyKinds(out), cs)
+				return
+			}
+			if out, _ := stepf(pg.Query("after gss decline " + s.User)); pg.Types(mustMsgs(out)) != "TDCZ" {
+				c.Violate("upgrade", "query after GSSENCRequest + SSLRequest not served", replyKinds(out), cs)
+			}
+			return
+		}
 		conn.CloseWrite()
 		conn.WaitClosed()
 		for _, e := range conn.Events() {
